@@ -401,6 +401,60 @@ def named_message_transparency(mi: int, outgoing: bool, p0: int) -> bool:
     return True
 
 
+# ------------------------------------------------------------------------------------------------ pre-session datagrams
+from hippolyzer.lib.proxy.lludp_proxy import InterceptingLLUDPProxyProtocol  # noqa: E402
+
+CLIENT2 = ("127.0.0.1", 2)
+PRE_KINDS = ["UseCircuitCode naming the session another association already claimed", "UseCircuitCode naming an unknown session",
+             "an ordinary message before any UseCircuitCode", "UseCircuitCode arriving from the simulator side"]
+
+
+@harness(pre=["0 <= kind <= 3", "0 <= follow <= 1", "p0 in (1, 70000)"], post="_", timeout=300, covers=COVERS + (
+         "hippolyzer.lib.proxy.sessions:SessionManager.claim_session",),
+         note="datagrams on a SECOND UDP association that has no session yet, while the first association's session is live: a "
+              "UseCircuitCode naming the already-claimed session, one naming an unknown session, an ordinary message, and a "
+              "UseCircuitCode from the simulator side (each optionally followed by an ordinary viewer datagram): nothing is sent "
+              "anywhere, the second association stays without a session, and the first association's session, regions and "
+              "circuit are untouched and still carry a datagram each way")
+def pre_session_datagrams(kind: int, follow: int, p0: int) -> bool:
+    kind, follow = small(kind, 0, 3), small(follow, 0, 1)
+    sock = fresh()
+    fp0 = state_fingerprint()
+    sessions0 = list(px.SM.sessions)
+    proto2 = InterceptingLLUDPProxyProtocol(CLIENT2, px.SM)
+    sock2 = Sock()
+    proto2.transport = SOCKS5UDPTransport(sock2)
+    sid = px.SESSION.id if kind != 1 else UUID("99999999-9999-9999-9999-999999999999")
+    if kind in (0, 1, 3):
+        msg = Message("UseCircuitCode", Block("CircuitCode", Code=1234, SessionID=sid, ID=px.SESSION.agent_id), packet_id=p0,
+                      direction=Direction.IN if kind == 3 else Direction.OUT)
+    else:
+        msg = make_datagram(0, True, p0)[0]
+    msgs = [(msg, kind != 3)]
+    if follow:
+        msgs.append((make_datagram(0, True, p0 + 1)[0], True))
+    for m, outgoing in msgs:
+        body = SER.serialize(m)
+        if outgoing:
+            data = struct.pack("!HBB4sH", 0, 0, 1, bytes(int(x) for x in px.SIM[0].split(".")), px.SIM[1]) + body
+            src = CLIENT2
+        else:
+            data, src = body, px.SIM
+        try:
+            proto2.datagram_received(data, src)
+        except Exception:
+            pass
+        if sock2.sent or sock.sent or proto2.session is not None:
+            return False
+    if list(px.SM.sessions) != sessions0 or state_fingerprint() != fp0 or px.PROTO.session is not px.SESSION:
+        return False
+    for og in (True, False):
+        m2 = make_datagram(0, og, 900)[0]
+        if not check_delivery(px.SIM if og else px.CLIENT, m2, push(sock, m2, og, px.SIM), og, 900):
+            return False
+    return True
+
+
 EVIDENCE = {
     "bounds": "framing: any port, payload <= 4 bytes, any 4 header bytes + tail <= 8; routing: schedules of 2 datagrams over 4 "
               "sources x 6 kinds, two packet-id pairs, one session, two regions; circuit lifecycle: schedules of 3 events, and "
